@@ -11,25 +11,25 @@ from vcheck import log
 # (family, runs, steps)
 PLANS = {
     "C01": dict(models=dict(quick=[("MC_HRaft.tla", "MC_Election_q.cfg", 300)], thorough=[("MC_HRaft.tla", "MC_Election.cfg", 900), ("MC_HRaft.tla", "MC_Crash.cfg", 900)]), families=dict(quick=[("chaos", 24, 500), ("elect", 24, 400)], thorough=[("chaos", 160, 800), ("elect", 200, 600), ("member", 80, 500)])),
-    "C02": dict(models=dict(quick=[("MC_HRaft.tla", "MC_Replication_q.cfg", 300)], thorough=[("MC_HRaft.tla", "MC_Replication.cfg", 900), ("MC_HRaft.tla", "MC_Snapshot_q.cfg", 900)]), families=dict(quick=[("chaos", 16, 500), ("snap", 24, 500), ("client", 8, 400)], thorough=[("chaos", 120, 800), ("snap", 200, 800), ("client", 80, 600), ("restart", 80, 600)])),
-    "C03": dict(models=dict(quick=[("MC_HRaft.tla", "MC_Replication_q.cfg", 300)], thorough=[("MC_HRaft.tla", "MC_Replication.cfg", 900), ("MC_HRaft.tla", "MC_Crash.cfg", 900)]), families=dict(quick=[("chaos", 24, 500), ("restart", 16, 400), ("figure8", 8, 0)], thorough=[("chaos", 200, 800), ("restart", 120, 600), ("member", 60, 500), ("figure8", 64, 0)])),
+    "C02": dict(models=dict(quick=[("MC_HRaft.tla", "MC_Replication_q.cfg", 300)], thorough=[("MC_HRaft.tla", "MC_Replication.cfg", 900), ("MC_HRaft.tla", "MC_Snapshot_q.cfg", 900)]), families=dict(quick=[("chaos", 16, 500), ("snap", 24, 500), ("client", 8, 400), ("restoreinflight", 12, 0), ("dupis", 9, 500)], thorough=[("chaos", 120, 800), ("snap", 200, 800), ("client", 80, 600), ("restart", 80, 600), ("restoreinflight", 96, 0), ("restore", 60, 500), ("dupis", 48, 500)])),
+    "C03": dict(models=dict(quick=[("MC_HRaft.tla", "MC_Replication_q.cfg", 300)], thorough=[("MC_HRaft.tla", "MC_Replication.cfg", 900), ("MC_HRaft.tla", "MC_Crash.cfg", 900)]), families=dict(quick=[("chaos", 24, 500), ("restart", 16, 400), ("figure8", 8, 0), ("dupis", 9, 500)], thorough=[("chaos", 200, 800), ("restart", 120, 600), ("member", 60, 500), ("figure8", 64, 0), ("dupis", 48, 500)])),
     "C04": dict(models=dict(quick=[], thorough=[("MC_HRaft.tla", "MC_Replication.cfg", 900)]), families=dict(quick=[("chaos", 16, 500), ("snap", 12, 400)], thorough=[("chaos", 200, 800), ("snap", 120, 600), ("restart", 80, 600)]), suites=["l2:ae"]),
-    "C05": dict(models=dict(quick=[("MC_HRaft.tla", "MC_Replication_q.cfg", 300)], thorough=[("MC_HRaft.tla", "MC_Replication.cfg", 900), ("MC_HRaft.tla", "MC_Membership.cfg", 1200)]), families=dict(quick=[("chaos", 20, 500), ("member", 16, 400), ("figure8", 8, 0)], thorough=[("chaos", 160, 800), ("member", 120, 600), ("figure8", 64, 0)]), suites=["l1:commitment"]),
+    "C05": dict(models=dict(quick=[("MC_HRaft.tla", "MC_Replication_q.cfg", 300)], thorough=[("MC_HRaft.tla", "MC_Replication.cfg", 900), ("MC_HRaft.tla", "MC_Membership.cfg", 1200)]), families=dict(quick=[("chaos", 20, 500), ("member", 16, 400), ("figure8", 8, 0), ("dupis", 9, 500)], thorough=[("chaos", 160, 800), ("member", 120, 600), ("figure8", 64, 0), ("dupis", 48, 500)]), suites=["l1:commitment"]),
     "C06": dict(models=dict(quick=[("MC_HRaft.tla", "MC_Crash_q.cfg", 300)], thorough=[("MC_HRaft.tla", "MC_Crash.cfg", 900), ("MC_HRaft.tla", "MC_Election.cfg", 900)]), families=dict(quick=[("elect", 16, 400)], thorough=[("elect", 240, 600), ("chaos", 80, 600)]), suites=["l2:vote", "l2:vote2"]),
     "C07": dict(models=dict(quick=[("MC_HRaft.tla", "MC_Membership_q.cfg", 300)], thorough=[("MC_HRaft.tla", "MC_Membership.cfg", 1200)]), families=dict(quick=[("member", 24, 400), ("cfgtrunc", 8, 0), ("snapmember", 8, 400)], thorough=[("member", 240, 600), ("cfgtrunc", 32, 0), ("snapmember", 80, 500)]), suites=["l1:configuration"]),
     "C08": dict(families=dict(quick=[("client", 32, 400)], thorough=[("client", 240, 600), ("chaos", 80, 600)])),
     "C09": dict(families=dict(quick=[("verify", 32, 400), ("member", 8, 400)], thorough=[("verify", 240, 600), ("member", 80, 500)])),
-    "C10": dict(models=dict(quick=[], thorough=[("MC_HRaft.tla", "MC_Crash.cfg", 900)]), families=dict(quick=[("restart", 24, 400)], thorough=[("restart", 240, 600), ("snap", 80, 600)]), suites=["l2:restart"]),
-    "C11": dict(models=dict(quick=[("MC_HRaft.tla", "MC_Snapshot_q.cfg", 300)], thorough=[("MC_HRaft.tla", "MC_Snapshot_q.cfg", 900)]), families=dict(quick=[("snap", 24, 400), ("restart", 16, 400)], thorough=[("snap", 200, 700), ("restart", 160, 600), ("restore", 60, 500)]), suites=["l1:compaction"]),
-    "C12": dict(families=dict(quick=[("chaos", 16, 400), ("snap", 16, 400), ("restart", 12, 400)], thorough=[("chaos", 120, 700), ("snap", 160, 700), ("restart", 120, 600), ("member", 40, 500)])),
+    "C10": dict(models=dict(quick=[], thorough=[("MC_HRaft.tla", "MC_Crash.cfg", 900)]), families=dict(quick=[("restart", 24, 400), ("snapcfgrace", 12, 0), ("snapmember", 8, 400)], thorough=[("restart", 240, 600), ("snap", 80, 600), ("snapcfgrace", 96, 0), ("snapmember", 80, 500)]), suites=["l2:restart"]),
+    "C11": dict(models=dict(quick=[("MC_HRaft.tla", "MC_Snapshot_q.cfg", 300)], thorough=[("MC_HRaft.tla", "MC_Snapshot_q.cfg", 900)]), families=dict(quick=[("snap", 24, 400), ("restart", 16, 400), ("snapcfgrace", 12, 0)], thorough=[("snap", 200, 700), ("restart", 160, 600), ("restore", 60, 500), ("snapcfgrace", 96, 0), ("snapmember", 80, 500)]), suites=["l1:compaction"]),
+    "C12": dict(families=dict(quick=[("chaos", 16, 400), ("snap", 16, 400), ("restart", 12, 400), ("elect", 16, 400), ("prevoteterm", 8, 0)], thorough=[("chaos", 120, 700), ("snap", 160, 700), ("restart", 120, 600), ("member", 40, 500), ("elect", 120, 500), ("restore", 60, 500), ("prevoteterm", 48, 0)])),
     "C13": dict(families=dict(quick=[("lease", 24, 500), ("leasequiet", 8, 400)], thorough=[("lease", 200, 800), ("leasequiet", 48, 1200)])),
-    "C14": dict(models=dict(quick=[("MC_HRaft.tla", "MC_Election_q.cfg", 300)], thorough=[("MC_HRaft.tla", "MC_Election.cfg", 900)]), families=dict(quick=[("prevote", 24, 0), ("elect", 12, 400)], thorough=[("prevote", 200, 0), ("elect", 120, 600), ("chaos", 60, 600)])),
+    "C14": dict(models=dict(quick=[("MC_HRaft.tla", "MC_Election_q.cfg", 300)], thorough=[("MC_HRaft.tla", "MC_Election.cfg", 900)]), families=dict(quick=[("prevote", 30, 0), ("elect", 12, 400), ("prevoteterm", 6, 0)], thorough=[("prevote", 240, 0), ("elect", 120, 600), ("chaos", 60, 600), ("prevoteterm", 32, 0)])),
     "C16": dict(families=dict(quick=[], thorough=[]), suites=["comp:nettrans"]),
-    "C17": dict(families=dict(quick=[("lifecycle", 32, 400)], thorough=[("lifecycle", 240, 600), ("client", 60, 500)])),
+    "C17": dict(families=dict(quick=[("lifecycle", 32, 400), ("restoreinflight", 8, 0)], thorough=[("lifecycle", 240, 600), ("client", 60, 500), ("restore", 60, 400), ("restoreinflight", 48, 0)])),
     "C18": dict(families=dict(quick=[("notify", 32, 400)], thorough=[("notify", 240, 600), ("elect", 80, 500)])),
     "C15": dict(families=dict(quick=[], thorough=[]), suites=["comp:filesnap", "strace:filesys"]),
     "C19": dict(families=dict(quick=[], thorough=[]), suites=["comp:logcache"]),
-    "C20": dict(families=dict(quick=[("restore", 32, 400)], thorough=[("restore", 240, 600)])),
+    "C20": dict(families=dict(quick=[("restore", 24, 400), ("restoreinflight", 16, 0)], thorough=[("restore", 240, 600), ("restoreinflight", 128, 0)])),
 }
 
 ASSUMPTIONS = [
@@ -135,7 +135,9 @@ def run(pid, tier, seed):
         else:
             new.append(v)
     for kid, (k, v) in sorted(seen_known.items()):
-        log("KNOWN-FINDING: property=%s %s [%s] e.g. %s line %d" % (pid, k["what"], kid, os.path.relpath(v["file"], vcheck.ROOT), v["line"]))
+        what = re.sub(r"^open: property=C\d+ ", "", k.get("line", k["what"]))
+        log("KNOWN-FINDING: property=%s %s [%s] e.g. %s line %d (%s)" % (pid, what, kid, os.path.relpath(v["file"], vcheck.ROOT), v["line"], v["pred"]))
+    others = [v for v in others if not vcheck.match_known(v, known)]
     for v in others[:10]:
         log("NOTE other-property predicate %s/%s false at %s line %d (judged by that property's own check)" % (v["prop"], v["pred"], os.path.basename(v["file"]), v["line"]))
     nc_kinds = {}
